@@ -84,11 +84,35 @@ pub fn drive_tf(out: &mut dyn std::io::Write, seed: u64, thorough: bool, cfg: &s
         ev(out, size, &vec![0xffu8; size], u64::MAX, u64::MAX, false, &vec![0xffu8; size], "ones", cfg);
         ev(out, size, &vec![0xffu8; size], u64::MAX, 0, false, &vec![0u8; size], "ones", cfg);
         ev(out, size, &vec![0x80u8; size], 0x8000_0000_0000_0000, 1, false, &vec![0x7fu8; size], "ones", cfg);
+        // related tweak words: t2 = t0 ^ t1 is 0, all-ones, or equal to one of them
+        for (t0, t1) in [(1u64, 1u64), (rng.next() | 1, 0), (0, rng.next() | 1)] {
+            let k = rng.bytes(size);
+            ev(out, size, &k, t0, t1, false, &rng.bytes(size), "tweakrel", cfg);
+        }
+        let t = rng.next() | 2;
+        let k = rng.bytes(size);
+        ev(out, size, &k, t, t, false, &rng.bytes(size), "tweakrel", cfg);
+        ev(out, size, &k, t, !t, false, &rng.bytes(size), "tweakrel", cfg);
         for _ in 0..(if thorough { 60 } else { 8 }) {
             let k = rng.bytes(size);
             let x = rng.bytes(size);
             ev(out, size, &k, rng.next(), rng.next(), false, &x, "rand", cfg);
         }
+    }
+}
+
+/// inputs crafted by the specification (CraftTF.tla): text lines `size keyhex t0 t1 xhex tag`
+pub fn drive_tf_vectors(out: &mut dyn std::io::Write, path: &str, cfg: &str) {
+    let unhex = |h: &str| -> Vec<u8> { (0..h.len() / 2).map(|i| u8::from_str_radix(&h[2 * i..2 * i + 2], 16).expect("harness: hex")).collect() };
+    let text = std::fs::read_to_string(path).expect("harness: vectors file");
+    for ln in text.lines() {
+        let f: Vec<&str> = ln.split_whitespace().collect();
+        if f.len() != 6 {
+            continue;
+        }
+        let size: usize = f[0].parse().expect("harness: size");
+        let (t0, t1): (u64, u64) = (f[2].parse().expect("harness: t0"), f[3].parse().expect("harness: t1"));
+        ev(out, size, &unhex(f[1]), t0, t1, false, &unhex(f[4]), f[5], cfg);
     }
 }
 
